@@ -56,7 +56,7 @@ def small_blocks(rng, n):
 
 
 def collect(tier, sd, rng, max_len, models, osets=None):
-    blocks = small_blocks(rng, 40 if tier == "quick" else 600)
+    blocks = small_blocks(rng, 40 if tier == "quick" else 160)
     osets = osets or OPTION_SETS
     tasks = []
     for i, b in enumerate(blocks):
@@ -85,7 +85,7 @@ def collect(tier, sd, rng, max_len, models, osets=None):
 def enc_correspondence(tier, rng, c, violations, soft_out=None):
     """the stack core of the hard constraints, generated by Models/Encoding.lean from the instance data of the real
     FullEncoding object, must occur verbatim among the constraints the real encoder emits (premise of Enc.core_realizes)"""
-    blocks = small_blocks(rng, 60 if tier == "quick" else 1200) + gen.blocks(rng.randrange(1 << 30), 40 if tier == "quick" else 600)
+    blocks = small_blocks(rng, 60 if tier == "quick" else 200) + gen.blocks(rng.randrange(1 << 30), 40 if tier == "quick" else 120)
     if tier == "quick":
         # the two families of transition constraints (boolean u variables / the `empty` constant) always, the rest in rotation
         rest = [o for o in ENC_OPTION_SETS[1:] if o != ["-empty"]]
